@@ -365,6 +365,8 @@ def run_case(pp, base, name, spec, rng, mode, case_id):
                     pp.create_poly_cost(net, e0["element"], e0["et"], 1.0)
                 else:
                     pp.create_pwl_cost(net, e0["element"], e0["et"], [[0, 1, 1.0]], power_type=e0.get("power_type", "p"))
+            if rng.random() < 0.6:
+                batch["et"] = [e["et"] for e in elems]          # element types given per element (the list branch of the check)
         elif mode == "dup_cost":
             if n == 1:
                 mode = "none"
